@@ -271,6 +271,19 @@ impl XFuncSpec {
         self.ret.clone().resolve_bind(bind, None)
     }
 
+    /// the return type of a call with these argument types: a generic parameter of the function that the
+    /// arguments left unbound because it only met the bottom type is the bottom type (a parameter that met
+    /// itself - a recursive call inside the generic function - stays)
+    pub(crate) fn rtype_for_call(&self, bind: &Bind, arg_types: &[Arc<XType>]) -> Arc<XType> {
+        let mut bind = bind.clone();
+        for name in self.generic_params.iter().flatten() {
+            if bind.get(name).is_none() && !arg_types.iter().any(|t| t.mentions_generic(name)) {
+                bind.bound_generics.insert(*name, X_UNKNOWN.clone());
+            }
+        }
+        self.ret.clone().resolve_bind(&bind, None)
+    }
+
     pub(crate) fn xtype(&self) -> Arc<XType> {
         Arc::new(XType::XFunc(self.clone()))
     }
@@ -535,6 +548,26 @@ impl XType {
                 Self::Compound(*ct, spec.clone(), new_bind).into()
             },
             _ => self.clone(),
+        }
+    }
+
+    /// does the generic parameter `id` occur in this type
+    pub(crate) fn mentions_generic(&self, id: &Identifier) -> bool {
+        match self {
+            Self::XGeneric(a) => a == id,
+            Self::XNative(_, types) | Self::Tuple(types) | Self::XTail(types) => {
+                types.iter().any(|t| t.mentions_generic(id))
+            }
+            Self::XCallable(spec) => {
+                spec.param_types.iter().any(|t| t.mentions_generic(id))
+                    || spec.return_type.mentions_generic(id)
+            }
+            Self::XFunc(spec) => {
+                spec.params.iter().any(|p| p.type_.mentions_generic(id))
+                    || spec.ret.mentions_generic(id)
+            }
+            Self::Compound(.., bind) => bind.iter().any(|(_, t)| t.mentions_generic(id)),
+            _ => false,
         }
     }
 
